@@ -345,6 +345,86 @@ def body_target(case):
     return labels
 
 
+# ---- events within a second of a dark-sky transition -----------------------------------------------
+
+
+def body_crossing(case):
+    """Target mode, optical: a cluster of explicit instants within +-0.9 s of the moment at which the Sun crosses the
+    configured altitude limit (found by bisection on the package's own public per-instant dark-sky function - a
+    generator helper). The integral must treat every event according to that function AT THE EVENT'S OWN INSTANT:
+    integral, passing count and stored column equal the plain-Python estimator with that mask. Finds dark-sky
+    evaluations on rounded, de-duplicated, cached or block-shared times."""
+    from astropy.time import Time, TimeDelta
+
+    from nuspacesim.simulation.geometry.region_geometry import RegionGeomToO
+
+    t0 = Time(case["date"], format="isot", scale="utc")
+    T = case["T"]
+    tm = t0 + TimeDelta(0.5 * T, format="sec")
+    base = dict(case, moon_cut=math.radians(89.0), phase_cut=0.0)
+    with quiet():
+        sun_mid = float(c13.body_altitude("sun", dict(base, **{"ra": 0, "dec": 0}), Time([tm]))[0])
+    base["sun_cut"] = sun_mid
+    conf = c13._config(base)
+    conf.detector.sun_moon.sun_moon_cuts = True
+    with quiet():
+        with cut("RegionGeomToO(config)"):
+            g = RegionGeomToO(conf)
+        too = g.too_source
+
+        def dark_at(sec):
+            return bool(np.asarray(too.sun_moon_cut(tm + TimeDelta(sec, format="sec"))))
+
+        lo, hi = -40.0, 40.0
+        with cut("sun_moon_cut(single instants)"):
+            dlo, dhi = dark_at(lo), dark_at(hi)
+        if dlo == dhi:
+            return {"no_transition_near_mid_window"}
+        for _ in range(22):  # to 2e-5 s
+            mid = 0.5 * (lo + hi)
+            if dark_at(mid) == dlo:
+                lo = mid
+            else:
+                hi = mid
+        t_star = 0.5 * (lo + hi)
+        offs = np.array(case["offsets"], dtype=np.float64)
+        fr = (0.5 * T + t_star + offs) / T
+        fr = fr[(fr >= 0) & (fr < 1)]
+        with cut("RegionGeomToO.throw(explicit instants around the transition)"):
+            g.throw(fr.copy())
+        L = np.asarray(g.pathLens(), dtype=float)
+        k = len(L)
+        if k == 0:
+            return {"nothing_kept"}
+        vt = g.val_times()
+        with cut("sun_moon_cut(kept instants)"):
+            dark = np.asarray(too.sun_moon_cut(vt), dtype=bool)
+            one_by_one = np.array([bool(np.asarray(too.sun_moon_cut(vt[i]))) for i in range(k)])
+    require(np.array_equal(dark, one_by_one), "the public dark-sky function gives another answer for an array of instants than instant by instant")
+    trig = np.full(k, 10.0)
+    pexit = _arr(case["pexit"], k)
+    cos_eff = np.clip(_arr(case["coseff"], k), 0.05, 1.0)
+    len_dec = 0.25 * L
+    stored = {}
+
+    def store(names, cols):
+        for n_, c_ in zip(names, cols):
+            stored[n_] = np.array(c_, dtype=float).copy()
+
+    with quiet():
+        with cut("RegionGeomToO.mcintegral(Optical)"):
+            mcint, geo_only, npass, _ = [float(x) for x in g.mcintegral(trig, cos_eff, pexit, 1.0, 1.0, 1.0, lenDec=len_dec, method="Optical", store=store)]
+    e_int, e_geo, e_n, w = target_oracle(len(fr), L, len_dec, cos_eff, trig, pexit, 1.0, 1.0, 1.0, dark)
+    scale = max(abs(e_geo), 1e-300)
+    require(int(npass) == e_n and abs(mcint - e_int) <= 1e-12 * scale, f"optical integral {mcint!r} with {int(npass)} passing events; the per-instant dark-sky function at the events' own instants (offsets {np.round((vt - tm).to_value('s') - t_star, 4).tolist()} s from the Sun's crossing of the limit) gives {e_int!r} with {e_n} passing")
+    col = stored.get("tmcintopt")
+    require(col is not None and np.array_equal(col != 0.0, np.asarray(w) != 0.0), f"stored per-event column is non-zero for events {np.where(col != 0.0)[0].tolist() if col is not None else None}, dark instants are {np.where(dark)[0].tolist()}")
+    labels = {"transition_found"}
+    if dark.any() and (~dark).any():
+        labels.add("events_on_both_sides_of_the_transition")
+    return labels
+
+
 # ---- end to end ---------------------------------------------------------------------------------
 
 
@@ -479,6 +559,25 @@ SUBCHECKS = [
         lambda labels: bool(labels & {"threshold_and_decay_cuts", "tie", "mixed_dark_sky"}),
         {"quick": 96, "thorough": 4000},
         doc="RegionGeomToO.mcintegral (Optical, Radio, Optical again on one object) vs plain-Python estimator; stored per-event column; dark-sky mask from C13's oracle",
+        tolerances={"rel": 1e-12},
+        shrink=False,
+    ),
+    SubCheck(
+        "dark_sky_crossing",
+        st.fixed_dictionaries(
+            {
+                **c13.geo_common,
+                "aim": st.tuples(st.floats(0.2, 0.8), st.floats(0.0, 2 * math.pi)).map(list),
+                "T": st.sampled_from([600.0, 3600.0, 5400.0]),
+                "offsets": st.lists(st.one_of(st.floats(-0.9, 0.9), st.sampled_from([-0.45, 0.45, 0.05, -0.05, 0.5, -0.5])), min_size=6, max_size=24),
+                "pexit": st.lists(pexit_st, min_size=3, max_size=8),
+                "coseff": st.lists(cos_st, min_size=3, max_size=8),
+            }
+        ),
+        body_crossing,
+        lambda labels: "events_on_both_sides_of_the_transition" in labels,
+        {"quick": 36, "thorough": 1200},
+        doc="explicit instants within a second of the Sun's crossing of its limit (bisection on the public per-instant function): optical integral, count and stored column == estimator with the per-instant mask at the events' own instants",
         tolerances={"rel": 1e-12},
         shrink=False,
     ),
